@@ -1122,7 +1122,11 @@ func (e *SpecEnv) pureApply(key string, con *Contract, sig *types.Signature, arg
 	saved := e.x.curGuard
 	e.x.curGuard = e.gd()
 	defer func() { e.x.curGuard = saved }()
-	return e.x.pureApp(e.fr, e.st, key, con, sig, args, fn, false)
+	pst := e.st
+	if e.locals != nil {
+		pst = e.locals
+	}
+	return e.x.pureApp(e.fr, e.st, key, con, sig, args, fn, false, pst)
 }
 
 func (e *SpecEnv) gd() string {
@@ -1132,7 +1136,12 @@ func (e *SpecEnv) gd() string {
 	return e.g
 }
 
-func (x *Exec) pureApp(fr *Frame, st *State, key string, con *Contract, sig *types.Signature, args []Val, fn *ssa.Function, preProved bool) Val {
+// pst is the state that receives the proof obligations and the assumptions (the current state); st is the state the
+// application reads the heap in (the pre-state inside old(), otherwise the same as pst)
+func (x *Exec) pureApp(fr *Frame, st *State, key string, con *Contract, sig *types.Signature, args []Val, fn *ssa.Function, preProved bool, pst *State) Val {
+	if pst == nil {
+		pst = st
+	}
 	var sorts, terms []string
 	for _, a := range args {
 		if a.K == KOpaque || a.K == KFunc || a.K == KAddr {
@@ -1232,12 +1241,12 @@ func (x *Exec) pureApp(fr *Frame, st *State, key string, con *Contract, sig *typ
 		// well-typedness of the application
 		for i := 0; i < len(cs); i++ {
 			if cs[i].Role == "arr" {
-				st.assume(sliceFact(out[i], out[i+1], out[i+2], out[i+3], ""))
+				pst.assume(sliceFact(out[i], out[i+1], out[i+2], out[i+3], ""))
 				i += 3
 				continue
 			}
 			if f := x.rangeFact(out[i], cs[i], ""); f != "true" {
-				st.assume(f)
+				pst.assume(f)
 			}
 		}
 		return v
@@ -1264,11 +1273,14 @@ func (x *Exec) pureApp(fr *Frame, st *State, key string, con *Contract, sig *typ
 		if gd != "true" {
 			sig0 += "|" + gd
 		}
-		if !st.applied[sig0] && !st.applied[base+"("+strings.Join(terms, ",")+")"] {
-			st.applied[sig0] = true
+		if !pst.applied[sig0] && !pst.applied[base+"("+strings.Join(terms, ",")+")"] {
+			pst.applied[sig0] = true
 			names := x.bindArgs(sig, args)
 			x.bindResults(names, sig, res)
 			env := &SpecEnv{x: x, fr: fr, st: st, old: st, names: names, pkg: con.Pkg, depth: 1, g: gd}
+			if pst != st {
+				env.locals = pst
+			}
 			savedG := x.curGuard
 			x.curGuard = gd
 			defer func() { x.curGuard = savedG }()
@@ -1284,20 +1296,43 @@ func (x *Exec) pureApp(fr *Frame, st *State, key string, con *Contract, sig *typ
 					if gd != "true" {
 						goal = &F{Op: "imp", Kids: []*F{atom(gd), f}}
 					}
-					x.proveF(fr, st, fmt.Sprintf("wd:%s.pre[%d]", shortKey(key), i), "well-defined", goal, nil)
+					x.proveF(fr, pst, fmt.Sprintf("wd:%s.pre[%d]", shortKey(key), i), "well-defined", goal, nil)
 				}
-				x.assumeG(st, gd, nnf(f, false))
+				x.assumeG(pst, gd, nnf(f, false))
 				i++
 			}
 			for _, en := range con.Ensures {
 				if f, ok := env.evalCallerSide(en); ok {
-					x.assumeG(st, gd, nnf(f, false))
+					x.assumeG(pst, gd, nnf(f, false))
 				}
 			}
 		}
 	}
 	return res
 }
+
+// bodyHasPureCall: does the expression call anything but builtins (a cheap syntactic test)?
+func (x *Exec) bodyHasPureCall(n ast.Expr) bool {
+	found := false
+	ast.Inspect(n, func(m ast.Node) bool {
+		if c, ok := m.(*ast.CallExpr); ok {
+			switch f := c.Fun.(type) {
+			case *ast.Ident:
+				if !specBuiltinNames[f.Name] {
+					found = true
+				}
+			default:
+				found = true
+			}
+		}
+		return !found
+	})
+	return found
+}
+
+var specBuiltinNames = map[string]bool{"forall": true, "exists": true, "implies": true, "iff": true, "old": true, "len": true, "cap": true, "val": true, "has": true,
+	"ite": true, "min": true, "max": true, "abs": true, "content": true, "strof": true, "fresh": true, "isNil": true, "unchanged": true, "gh": true, "pairkey": true,
+	"int": true, "int64": true, "uint64": true, "uint32": true, "uint16": true, "uint8": true, "uint": true, "int32": true, "byte": true, "mathint": true}
 
 // evalCallerSide evaluates a callee postcondition at a call site; clauses that talk about the callee's local variables
 // mean nothing to callers and are skipped (fewer assumptions: sound)
@@ -1585,9 +1620,25 @@ func (e *SpecEnv) builtinSpec(name string, c *ast.CallExpr) (Val, bool) {
 		if e.old != nil {
 			frozen.old = e.old
 		}
+		x := e.x
 		body := func(t string) *F {
+			// well-definedness of the body is checked once, below, for an arbitrary index; instantiations do not repeat it
+			saved := x.noWD
+			x.noWD = true
+			defer func() { x.noWD = saved }()
 			ne := frozen.with(map[string]Val{id.Name: intVal(t, types.Typ[types.Int])})
 			return ne.evalBool(bodyAST).formula()
+		}
+		if !x.noWD && x.bodyHasPureCall(bodyAST) {
+			c := x.decls.Fresh("wd."+id.Name, "Int")
+			ne := e.with(map[string]Val{id.Name: intVal(c, types.Typ[types.Int])})
+			ne.g = sAnd(e.gd(), sLe(lo, c), sLt(c, hi))
+			// on a copy of the state: the obligations are emitted, the facts about the arbitrary index do not stay behind
+			ne.st = e.st.clone()
+			if e.locals != nil {
+				ne.locals = e.locals.clone()
+			}
+			ne.evalBool(bodyAST)
 		}
 		return bval(&F{Op: name, Var: id.Name, Lo: lo, Hi: hi, Body: body}), true
 	case "forallKeys", "existsKeys":
